@@ -1,7 +1,7 @@
 /* Reference implementation of the ares_htable_strvp contract used by ares_qcache.c:
  * association list, keys are private copies compared CASE-INSENSITIVELY (ASCII), insert
  * replaces the value of an equal key (calling val_free on the old one when set), remove
- * deletes.  Capacity VP_STRVP_CAP (a BOUND trips when a harness needs more).  The last keys
+ * deletes.  Singly linked list of allocated nodes, at most VP_STRVP_CAP keys (a BOUND trips beyond).  The last keys
  * handed to insert/get/remove are recorded for the harness. */
 #include "ares_private.h"
 #include "ares_htable_strvp.h"
@@ -10,11 +10,16 @@
 #  define VP_STRVP_CAP 3
 #endif
 #define VP_STRVP_KEYMAX 64
+typedef struct vp_strvp_node {
+  char                 *key;
+  void                 *val;
+  struct vp_strvp_node *next;
+} vp_strvp_node_t;
+/* singly linked list of individually allocated nodes (no symbolically indexed arrays) */
 struct ares_htable_strvp {
   ares_htable_strvp_val_free_t free_val;
-  char                        *key[VP_STRVP_CAP];
-  void                        *val[VP_STRVP_CAP];
-  int                          used[VP_STRVP_CAP];
+  vp_strvp_node_t             *head;
+  size_t                       cnt;
 };
 char vp_strvp_ins_key[VP_STRVP_KEYMAX];
 char vp_strvp_get_key[VP_STRVP_KEYMAX];
@@ -48,86 +53,87 @@ static void record(char *dst, const char *key)
 ares_htable_strvp_t *ares_htable_strvp_create(ares_htable_strvp_val_free_t val_free)
 {
   ares_htable_strvp_t *h = vp_malloc(sizeof(*h));
-  size_t               i;
   if (h == NULL)
     return NULL;
   h->free_val = val_free;
-  for (i = 0; i < VP_STRVP_CAP; i++) {
-    h->used[i] = 0;
-    h->key[i]  = NULL;
-    h->val[i]  = NULL;
-  }
+  h->head     = NULL;
+  h->cnt      = 0;
   return h;
 }
-static void slot_clear(ares_htable_strvp_t *h, size_t i, int free_val)
+static vp_strvp_node_t *find(const ares_htable_strvp_t *h, const char *key)
 {
-  if (free_val && h->free_val != NULL)
-    h->free_val(h->val[i]);
-  vp_free(h->key[i]);
-  h->key[i]  = NULL;
-  h->val[i]  = NULL;
-  h->used[i] = 0;
+  vp_strvp_node_t *n;
+  for (n = h->head; n != NULL; n = n->next)
+    if (vp_strvp_key_eq(n->key, key))
+      return n;
+  return NULL;
+}
+static void unlink_node(ares_htable_strvp_t *h, vp_strvp_node_t *d)
+{
+  vp_strvp_node_t **pp;
+  for (pp = &h->head; *pp != NULL; pp = &(*pp)->next)
+    if (*pp == d) {
+      *pp = d->next;
+      break;
+    }
+  if (h->free_val != NULL)
+    h->free_val(d->val);
+  vp_free(d->key);
+  vp_free(d);
+  h->cnt--;
 }
 void ares_htable_strvp_destroy(ares_htable_strvp_t *h)
 {
-  size_t i;
   if (h == NULL)
     return;
-  for (i = 0; i < VP_STRVP_CAP; i++)
-    if (h->used[i])
-      slot_clear(h, i, 1);
+  while (h->head != NULL)
+    unlink_node(h, h->head);
   vp_free(h);
 }
 ares_bool_t ares_htable_strvp_insert(ares_htable_strvp_t *h, const char *key, void *val)
 {
-  size_t i, j, n;
-  char  *k;
+  vp_strvp_node_t *n;
+  size_t           j, len;
   if (h == NULL || key == NULL)
     return ARES_FALSE;
   vp_strvp_ins_calls++;
   record(vp_strvp_ins_key, key);
-  for (i = 0; i < VP_STRVP_CAP; i++) {
-    if (h->used[i] && vp_strvp_key_eq(h->key[i], key)) {
-      if (h->free_val != NULL)
-        h->free_val(h->val[i]);
-      h->val[i] = val;
-      return ARES_TRUE;
-    }
+  n = find(h, key);
+  if (n != NULL) {
+    if (h->free_val != NULL)
+      h->free_val(n->val);
+    n->val = val;
+    return ARES_TRUE;
   }
-  for (i = 0; i < VP_STRVP_CAP; i++) {
-    if (!h->used[i]) {
-      n = ref_len(key);
-      k = vp_malloc(n + 1);
-      if (k == NULL)
-        return ARES_FALSE;
-      for (j = 0; j <= n; j++)
-        k[j] = key[j];
-      h->used[i] = 1;
-      h->key[i]  = k;
-      h->val[i]  = val;
-      return ARES_TRUE;
-    }
-  }
-  VP_BOUND(0, "strvp_ref capacity exceeded");
-  return ARES_FALSE;
+  VP_BOUND(h->cnt < VP_STRVP_CAP, "strvp_ref capacity exceeded");
+  n   = vp_malloc(sizeof(*n));
+  len = ref_len(key);
+  if (n == NULL)
+    return ARES_FALSE;
+  n->key = vp_malloc(len + 1);
+  for (j = 0; j <= len; j++)
+    n->key[j] = key[j];
+  n->val  = val;
+  n->next = h->head;
+  h->head = n;
+  h->cnt++;
+  return ARES_TRUE;
 }
 ares_bool_t ares_htable_strvp_get(const ares_htable_strvp_t *h, const char *key, void **val)
 {
-  size_t i;
+  vp_strvp_node_t *n;
   if (val != NULL)
     *val = NULL;
   if (h == NULL || key == NULL)
     return ARES_FALSE;
   vp_strvp_get_calls++;
   record(vp_strvp_get_key, key);
-  for (i = 0; i < VP_STRVP_CAP; i++) {
-    if (h->used[i] && vp_strvp_key_eq(h->key[i], key)) {
-      if (val != NULL)
-        *val = h->val[i];
-      return ARES_TRUE;
-    }
-  }
-  return ARES_FALSE;
+  n = find(h, key);
+  if (n == NULL)
+    return ARES_FALSE;
+  if (val != NULL)
+    *val = n->val;
+  return ARES_TRUE;
 }
 void *ares_htable_strvp_get_direct(const ares_htable_strvp_t *h, const char *key)
 {
@@ -137,33 +143,20 @@ void *ares_htable_strvp_get_direct(const ares_htable_strvp_t *h, const char *key
 }
 ares_bool_t ares_htable_strvp_remove(ares_htable_strvp_t *h, const char *key)
 {
-  size_t i;
+  vp_strvp_node_t *n;
   if (h == NULL || key == NULL)
     return ARES_FALSE;
   vp_strvp_rem_calls++;
-  for (i = 0; i < VP_STRVP_CAP; i++) {
-    if (h->used[i] && vp_strvp_key_eq(h->key[i], key)) {
-      slot_clear(h, i, 1);
-      return ARES_TRUE;
-    }
-  }
-  return ARES_FALSE;
+  n = find(h, key);
+  if (n == NULL)
+    return ARES_FALSE;
+  unlink_node(h, n);
+  return ARES_TRUE;
 }
-size_t ares_htable_strvp_num_keys(const ares_htable_strvp_t *h)
-{
-  size_t i, n = 0;
-  if (h == NULL)
-    return 0;
-  for (i = 0; i < VP_STRVP_CAP; i++)
-    n += h->used[i] ? 1 : 0;
-  return n;
-}
+size_t ares_htable_strvp_num_keys(const ares_htable_strvp_t *h) { return h ? h->cnt : 0; }
 /* harness-side lookup that does not disturb the recorders */
 void *vp_strvp_peek(const ares_htable_strvp_t *h, const char *key)
 {
-  size_t i;
-  for (i = 0; i < VP_STRVP_CAP; i++)
-    if (h->used[i] && vp_strvp_key_eq(h->key[i], key))
-      return h->val[i];
-  return NULL;
+  vp_strvp_node_t *n = find(h, key);
+  return n ? n->val : NULL;
 }
